@@ -23,8 +23,16 @@ func (tw *templateWriter) Write(b []byte) (int, error) {
 	return tw.w.Write(b)
 }
 
+// maxTemplateNesting bounds how deep templates can include/extend/import
+// each other while being compiled and include each other while being executed.
+const maxTemplateNesting = 1000
+
 type Template struct {
 	set *TemplateSet
+
+	// Depth of this template within the chain of templates being compiled
+	// (0 for templates created through the public API)
+	nesting int
 
 	// Input
 	isTplString bool
@@ -56,11 +64,16 @@ func newTemplateString(set *TemplateSet, tpl []byte) (*Template, error) {
 }
 
 func newTemplate(set *TemplateSet, name string, isTplString bool, tpl []byte) (*Template, error) {
+	return newNestedTemplate(set, name, isTplString, tpl, 0)
+}
+
+func newNestedTemplate(set *TemplateSet, name string, isTplString bool, tpl []byte, nesting int) (*Template, error) {
 	strTpl := string(tpl)
 
 	// Create the template
 	t := &Template{
 		set:            set,
+		nesting:        nesting,
 		isTplString:    isTplString,
 		name:           name,
 		tpl:            strTpl,
@@ -135,9 +148,28 @@ func (tpl *Template) newContextForExecution(context Context) (*Template, *Execut
 }
 
 func (tpl *Template) execute(context Context, writer TemplateWriter) error {
+	return tpl.executeWithNesting(context, writer, 0)
+}
+
+// executeNested executes the template (buffered) on behalf of a running
+// execution, e.g. for the include tag.
+func (tpl *Template) executeNested(outer *ExecutionContext, context Context, writer io.Writer) error {
+	buffer := bytes.NewBuffer(make([]byte, 0, int(float64(tpl.size)*1.3)))
+	if err := tpl.executeWithNesting(context, buffer, outer.nesting+1); err != nil {
+		return err
+	}
+	_, err := buffer.WriteTo(writer)
+	return err
+}
+
+func (tpl *Template) executeWithNesting(context Context, writer TemplateWriter, nesting int) error {
 	parent, ctx, err := tpl.newContextForExecution(context)
 	if err != nil {
 		return err
+	}
+	ctx.nesting = nesting
+	if nesting > maxTemplateNesting {
+		return ctx.Error(fmt.Sprintf("maximum template nesting depth reached (max is %v)", maxTemplateNesting), nil)
 	}
 
 	// Run the selected document
